@@ -109,7 +109,8 @@ def plan_calls(abi, rng, n, addrs):
         if x > 0.97 and len(data) > 4:
             data = data[:-1]         # truncated calldata
         payable = fn.get("stateMutability") == "payable"
-        value = rng.choice([0, 1, 1000, 10 ** 15]) if (payable and rng.random() < 0.7) else (7 if rng.random() < 0.03 else 0)
+        value = rng.choice([0, 1, 1000, 10 ** 15]) if (payable and rng.random() < 0.7) else \
+            (rng.choice([7, 2, 4, 256, 2 ** 64]) if rng.random() < 0.08 else 0)   # non-payable: odd AND even non-zero values
         plan.append({"name": fn["name"], "data": data, "value": value, "sender": sender, "args": repr(vals)[:300]})
     return plan
 
